@@ -1,9 +1,13 @@
 //! hx_c43: schema / projection algebra (C43).
+mod c43;
+mod e2e;
 mod probe;
+mod tree;
 
 fn main() {
     let (sub, args) = hxlib::util::Args::parse();
     let code = match sub.as_str() {
+        "c43" => c43::run(&args),
         "probe" => probe::run(&args),
         _ => {
             eprintln!("unknown subcommand {sub}");
